@@ -593,7 +593,7 @@ func selftest(prop string, seed uint64, n int, procs int) int {
 		wg.Wait()
 	}
 	ref := strings.Split(strings.TrimSpace(outs[0]), "\n")
-	hashDiv, verdictDiv, racy := 0, 0, 0
+	hashDiv, verdictDiv, racy, racyVerdictDiv := 0, 0, 0, 0
 	for _, l := range ref {
 		if f := strings.Fields(l); len(f) >= 3 && f[2] == "true" {
 			racy++
@@ -614,10 +614,14 @@ func selftest(prop string, seed uint64, n int, procs int) int {
 				vb = b[3]
 			}
 			if va != vb {
-				verdictDiv++
-				fmt.Printf("VERDICT DIVERGENCE run %s: %q vs %q\n", a[0], va, vb)
+				if a[2] == "true" || b[2] == "true" {
+					racyVerdictDiv++ // the runtime, not the tape, decided (multi-ready select): reported, not fatal
+				} else {
+					verdictDiv++
+					fmt.Printf("VERDICT DIVERGENCE run %s: %q vs %q\n", a[0], va, vb)
+				}
 			}
-			if a[1] != b[1] && a[2] != "true" {
+			if a[1] != b[1] && a[2] != "true" && b[2] != "true" {
 				hashDiv++
 				if hashDiv <= 10 {
 					fmt.Printf("HASH DIVERGENCE run %s: %s vs %s (process %d)\n", a[0], a[1], b[1], p)
@@ -625,7 +629,7 @@ func selftest(prop string, seed uint64, n int, procs int) int {
 			}
 		}
 	}
-	fmt.Printf("selftest %s: %d runs x %d processes, racy=%d, hash divergences (non-racy)=%d, verdict divergences=%d\n", prop, n, procs, racy, hashDiv, verdictDiv)
+	fmt.Printf("selftest %s: %d runs x %d processes, racy=%d, hash divergences (non-racy)=%d, verdict divergences (non-racy)=%d, verdict divergences in racy runs=%d\n", prop, n, procs, racy, hashDiv, verdictDiv, racyVerdictDiv)
 	if hashDiv > 0 || verdictDiv > 0 {
 		return 2
 	}
